@@ -89,7 +89,9 @@ impl<'a> LoweringManager<'a> {
     // This ensures the function signature matches what call_indirect expects when calling closures,
     // since closure calls always use a type-erased signature with (ref eq) as the context param.
     // The context can be Int31, a struct, or already AnyPointer - we unify all to AnyPointer.
-    if parameters.first() == Some(&PStr::UNDERSCORE_THIS)
+    if parameters
+      .first()
+      .is_some_and(|p| super::mir_tail_recursion_rewrite::is_context_parameter(self.heap, *p))
       && !fn_type.argument_types.is_empty()
       && fn_type.argument_types[0] != lir::Type::AnyPointer
     {
